@@ -75,8 +75,11 @@ def inorder_events(n: int, workers: int) -> List[List[Any]]:
 # --------------------------------------------------------------------------- gated pool
 
 class _FakeWorker:
-    def __init__(self) -> None:
+    """stands in for a multiprocessing.Process child of the caller (a pool worker or a bystander)"""
+    def __init__(self, pid: int) -> None:
         self.alive = True
+        self.pid = 40000 + pid
+        self.name = f"fake-{pid}"
 
     def is_alive(self) -> bool:
         return self.alive
@@ -87,7 +90,7 @@ class _Control:
     blocked_seen = 0
 
     def __init__(self, outcomes: List[List[Any]], events: List[List[Any]], has_timeout: bool,
-                 deadline: float = 0.0) -> None:
+                 deadline: float = 0.0, bystanders: Optional[List[int]] = None) -> None:
         self.outcomes = outcomes
         self.events = events
         self.has_timeout = has_timeout
@@ -101,6 +104,8 @@ class _Control:
         self.pools: List[Any] = []
         self.instances: List[Any] = []
         self.fakes: List[_FakeWorker] = []
+        self.bystander_ids = list(bystanders or [])
+        self.bystanders = {pid: _FakeWorker(pid) for pid in self.bystander_ids}
         self.children_calls = 0
         self.thread: Optional[threading.Thread] = None
         self.watchdog = (3.0 if _Control.blocked_seen < 3 else 0.05) + deadline
@@ -135,12 +140,14 @@ class _Control:
             gate.set()
 
     def active_children(self) -> List[Any]:
+        # like the real function: only children that are still alive, earlier children first
         self.children_calls += 1
+        earlier = [b for b in self.bystanders.values() if b.alive]
         if self.children_calls == 1 or not self.pools:
-            return []
+            return earlier
         if not self.fakes:
-            self.fakes = [_FakeWorker() for _ in range(self.pools[-1] or 1)]
-        return list(self.fakes)
+            self.fakes = [_FakeWorker(i) for i in range(self.pools[-1] or 1)]
+        return earlier + list(self.fakes)
 
     def control(self, result: Any) -> None:
         done = set()
@@ -169,7 +176,11 @@ class _Control:
             elif event[0] == "timeout":
                 if self.has_timeout:
                     break
-            elif event[0] == "died":
+            elif event[0] == "exit" and event[1] in self.bystanders:
+                # an unrelated child of the caller ends; give the poll loop time to look at it
+                self.bystanders[event[1]].alive = False
+                time.sleep(0.008)
+            elif event[0] in ("died", "exit"):
                 deadline = time.monotonic() + 1.0
                 while not self.fakes and time.monotonic() < deadline and self.children_calls >= 2:
                     time.sleep(0.0005)
@@ -222,7 +233,8 @@ def run_scheduled(case: Dict[str, Any]) -> Dict[str, Any]:
 
     outcomes = case["outcomes"]
     events = case["events"]
-    ctl = _Control(outcomes, events, bool(case["timeout"]), float(case.get("deadline", 0)))
+    ctl = _Control(outcomes, events, bool(case["timeout"]), float(case.get("deadline", 0)),
+                   case.get("before"))
     n = len(outcomes)
     timeout: Optional[float] = None
     if case["timeout"]:
@@ -236,7 +248,7 @@ def run_scheduled(case: Dict[str, Any]) -> Dict[str, Any]:
             elif event[0] == "timeout" and done_before < total:
                 stalls = True
                 break
-            elif event[0] == "died":
+            elif event[0] == "died" or (event[0] == "exit" and event[1] not in (case.get("before") or [])):
                 break
         # parallel_execute insists on whole seconds (`assert isinstance(timeout, int)`)
         timeout = case.get("deadline", STALL_TIMEOUT) if stalls else int(FAR_TIMEOUT)
@@ -312,6 +324,8 @@ class C18(Property):
         ("antismash/common/record_processing.py", "pre_process_sequences"),
         ("antismash/common/record_processing.py", "sanitise_sequence"),
         ("antismash/common/record_processing.py", "ensure_cds_info"),
+        ("antismash/common/record_processing.py", "fix_record_name_id"),
+        ("antismash/common/record_processing.py", "generate_unique_id"),
         ("antismash/common/secmet/record.py", "Record.__slots__"),
         ("antismash/common/secmet/record.py", "Record.__getattr__"),
         ("antismash/common/secmet/record.py", "Record.__setattr__"),
@@ -332,7 +346,9 @@ class C18(Property):
                "pickle: faithfulness for Records/features is checked on generated records by object-graph "
                "isomorphism with in-process execution, not proved",
                "scheduled cases steer CPython's ThreadPool through the private MapResult._number_left counter",
-               "the OS scheduler: real completion orders are observed (log), not enumerated"]
+               "the OS scheduler: real completion orders are observed (log), not enumerated",
+               "identifier rewriting is C16's Lean model (Model/Ids.lean); worker functions are modelled on "
+               "(sequence, skip, #CDS) for ASCII sequences; everything else in a Record is compared by object graph"]
 
     def __init__(self) -> None:
         self._procs: List[Tuple[subprocess.Popen, List[Dict[str, Any]]]] = []
@@ -380,6 +396,15 @@ class C18(Property):
                 events.insert(rng.randrange(0, len(events) + 1), ["timeout"])
         elif r > 0.85:
             events.insert(rng.randrange(0, len(events) + 1), ["died", rng.randrange(0, k)])
+        before: List[int] = []
+        if rng.random() < 0.2:
+            # the caller owns other child processes; some of them end while the batch is running
+            before = [100 + i for i in range(rng.choice([1, 1, 2]))]
+            for pid in before:
+                if rng.random() < 0.8:
+                    events.insert(rng.randrange(0, len(events) + 1), ["exit", pid])
+            if rng.random() < 0.15:
+                events.insert(rng.randrange(0, len(events) + 1), ["exit", rng.randrange(0, k)])
         use_config = rng.random() < 0.15
         case = {"kind": kind, "cpus": 0 if use_config else k, "config_cpus": k if use_config else rng.choice([1, 2, 4]),
                 "timeout": has_timeout, "outcomes": outcomes, "events": events}
@@ -389,6 +414,9 @@ class C18(Property):
             case["verbose"] = rng.random() < 0.3
         if deadline is not None:
             case["deadline"] = deadline
+        if before:
+            case["before"] = before
+            case["after"] = before + list(range(k))
         return case
 
     def single_cpu_case(self, rng: random.Random) -> Dict[str, Any]:
@@ -473,6 +501,33 @@ class C18(Property):
                          "annotations": {"molecule_type": "DNA", "organism": f"org {i}"}, "description": f"desc {i}"})
         return spec
 
+    @staticmethod
+    def colliding_ids(rng: random.Random) -> List[str]:
+        """record ids that are pairwise different as given but meet once fix_record_name_id rewrites them"""
+        stem = rng.choice(["Streptomyces", "Kitasatospora", "Micromonospora_sp"])
+        number = rng.choice([1, 7, 12, 345])
+        families = [
+            # over-long ids shortening to the same c000NN_prefix.. name
+            [f"{stem}_A1.contig{number}", f"{stem}_A2.contig{number}", f"{stem}_B7.contig{number}"],
+            [f"{stem}_plasmid_x_scaffold{number}", f"{stem}_plasmid_y_scaffold{number}"],
+            # equal once the illegal characters are stripped
+            [f"scaffold({number})", f"scaffold[{number}]", f"scaffold{number}"],
+            [f"ctg:{number}", f"ctg;{number}", f"c,t,g{number}"],
+            # RefSeq accessions differing in the version only
+            [f"NZ_AMZN0100{number:04d}0.1", f"NZ_AMZN0100{number:04d}0.2"],
+            # over-long and dirty at once
+            [f"{stem}(strain 1) contig{number}", f"{stem}(strain 2) contig{number}"],
+            # a shortened name that is already somebody's id
+            [f"c{number:05d}_{stem[:7]}..", f"{stem[:7]}_long_name.contig{number}"],
+        ]
+        ids = list(rng.choice(families))
+        if rng.random() < 0.5:
+            ids += rng.choice(families)[:2]
+        ids += [f"plain{rng.randrange(100)}"] * rng.choice([0, 1, 1, 2])
+        rng.shuffle(ids)
+        # exact duplicates are fine (uniquePass), but keep at least two records
+        return ids if len(ids) >= 2 else ids + ["other"]
+
     def real_cases(self, rng: random.Random, tier: str, deep: bool) -> List[Dict[str, Any]]:
         thorough = tier == "thorough"
         all_cpus = list(range(1, 17))
@@ -521,6 +576,12 @@ class C18(Property):
                     if rng.random() < 0.5:
                         case["timeout"] = 30
                     cases.append(case)
+        for k in ([2, 3, 5, 8, 16] if thorough else [2, rng.choice([4, 9, 16])]):
+            # the caller owns another child process that ends while the batch is running
+            n = rng.choice([k, k + 1, 3 * k + 1])
+            tasks = [[rng.choice([250, 320, 400]), "ok", rng.randrange(1000)] for _ in range(n)]
+            cases.append({"kind": "rpf", "cpus": k, "tasks": tasks, "bystander_ms": rng.choice([60, 120]),
+                          **({"timeout": 30} if rng.random() < 0.5 else {})})
         if thorough:
             for k in (2, 7):
                 tasks = tasks_for(k + 1, k, "random")
@@ -548,6 +609,18 @@ class C18(Property):
                 dup[-1]["id"] = dup[0]["id"]
                 cases.append({"kind": "prep", "cpus": k, "records": dup + rich})
                 cases.append({"kind": "prep", "cpus": k, "records": failing})
+        # identifiers that only collide AFTER rewriting: the shared id set must be threaded through all records
+        for k in ([2, 3, 4, 8, 16] if thorough else [2, rng.choice([3, 4, 6])]):
+            for rep in range(3 if thorough else 2):
+                ids = self.colliding_ids(rng)
+                records = []
+                for i, rid in enumerate(ids):
+                    spec = self.rand_record(rng, i, False, rng.choice([120, 300]), rich=False)
+                    spec["id"] = rid
+                    spec["name"] = rid if rng.random() < 0.7 else f"name{i}"
+                    records.append(spec)
+                cases.append({"kind": "prep", "cpus": k, "records": records, "minlength": 1,
+                              "allow_long_headers": rng.random() < 0.3})
         # parallel_execute with real children
         for k in ([1, 2, 5, 16] if thorough else [1, 3]):
             codes = [rng.choice([0, 0, 1, 3, 7]) for _ in range(rng.choice([k, k + 1, 2 * k + 1]))]
@@ -631,7 +704,8 @@ class C18(Property):
             impl = {"err": "task", "e": "non-integer results"}   # cannot be what the spec expects
         if kind in ("pf", "pe"):
             return {"kind": kind, "cpus": case["cpus"], "config_cpus": case["config_cpus"], "timeout": case["timeout"],
-                    "outcomes": case["outcomes"], "events": case["events"], "impl": impl}
+                    "outcomes": case["outcomes"], "events": case["events"], "impl": impl,
+                    "before": case.get("before", []), "after": case.get("after", [])}
         if kind == "rpf":
             if "harness_error" in obs:
                 return None
@@ -639,6 +713,16 @@ class C18(Property):
                         for _d, mode, val in case["tasks"]]
             return {"kind": "pf", "cpus": case["cpus"], "config_cpus": 1, "timeout": case.get("timeout") is not None,
                     "outcomes": outcomes, "events": obs.get("events", []), "impl": impl}
+        if kind == "rec":
+            if case["func"] not in ("sanitise", "genefind") or "given" not in obs:
+                return None
+            return {"kind": "workers", "func": case["func"], "records": obs["given"]}
+        if kind == "prep":
+            if "recs" not in obs or any(spec.get("original_id") for spec in case["records"]):
+                return None
+            return {"kind": "prep_ids", "cpus": case["cpus"], "allow_long": bool(case.get("allow_long_headers", False)),
+                    "recs": [[spec["id"], spec.get("name") if spec.get("name") is not None else "<unknown name>"]
+                             for spec in case["records"]]}
         if kind == "rpe":
             if "harness_error" in obs:
                 return None
@@ -657,9 +741,42 @@ class C18(Property):
                                                   f"{obs.get('trace', '')[-300:]}", tags=(kind, "harness-error"))
         if kind in ("rec", "prep"):
             problems = list(obs.get("problems", [])) + [f"pickle: {p}" for p in obs.get("pickle_problems", [])]
-            tags = (kind, case.get("func", "prep"), f"cpus{case['cpus']}", "error" if "error" in obs else "records")
-            return Judgement(not problems, not problems, nontrivial=True, tags=tags,
-                             detail="; ".join(problems)[:600])
+            tags = [kind, case.get("func", "prep"), f"cpus{case['cpus']}", "error" if "error" in obs else "records"]
+            corr = not problems
+            if kind == "rec" and drv is not None and "model" in drv:
+                # Lean model of the worker function (sanitiseSequence / ensureCdsInfo) on sequence, skip, #CDS
+                model = drv["model"]
+                tags.append("worker-model")
+                if "content" in model:
+                    if obs.get("content") != model["content"]:
+                        corr = False
+                        diff = next((i for i, (a, b) in enumerate(zip(obs.get("content") or [], model["content"])) if a != b), 0)
+                        got = (obs.get("content") or [None] * (diff + 1))[diff] if obs.get("content") else obs.get("error")
+                        problems.append(f"worker function model, record {diff}: {str(model['content'][diff])[:120]} vs "
+                                        f"implementation {str(got)[:120]}")
+                elif not str(obs.get("error", {}).get("e", "")).startswith(model.get("err", "?")):
+                    corr = False
+                    problems.append(f"worker function model raises {model.get('err')}, implementation {obs.get('error') or 'returned'}")
+                if not corr and len(problems) == 1:
+                    return Judgement(False, True, nontrivial=True, tags=tuple(tags), detail=problems[0][:600])
+            if kind == "prep" and drv is not None and "recs" in obs and "model" in drv:
+                # Lean: the id set threaded in the parent (C16 model) = the one-cpu result (theorem
+                # state_threaded_in_parent_cpus_invariant); `shipped` = a copy per task batch
+                model = drv["model"].get("recs")
+                ids = [r[0] for r in obs["recs"]]
+                if len(set(ids)) < len(ids):
+                    problems.insert(0, f"records share an identifier: {ids}")
+                mismatch = ""
+                if model is not None and obs["recs"] != model:
+                    corr = False
+                    mismatch = f"model (id set threaded in the parent) {model} vs implementation {obs['recs']}"
+                if drv.get("shipped") is not None and drv["shipped"] != model:
+                    tags.append("ids-depend-on-threading")
+                    if obs["recs"] == drv["shipped"]:
+                        problems.append("identifiers are those of a per-batch copy of the id set")
+                if mismatch and not problems:
+                    return Judgement(False, True, nontrivial=True, tags=tuple(tags), detail=mismatch[:600])
+            return Judgement(corr, not problems, nontrivial=True, tags=tuple(tags), detail="; ".join(problems)[:600])
         assert drv is not None
         if "err" in drv and "model" not in drv:
             return Judgement(False, True, detail=f"driver error {drv['err']}")
